@@ -71,6 +71,18 @@ CLAIMED = {
          "set-point within 2 m of the vehicle (norm saturation lemma), reset puts it on the vehicle; attitude law is exactly zero for q_r = q and "
          "q_r = -q. Position-controller bound, auto-level map and 'reaches the reference': numeric search only (named in evidence).",
          "DESIGN.md §2 C15", TECH_T),
+ "C14": ("proof", "Lean 4 theorems over the regenerated programs: the Euler(3-2-1)->quaternion helper returns a unit quaternion of the same "
+         "rotation for EVERY yaw/pitch/roll (through the Shepperd theorem of C07); the flatness reference mr_ref_traj satisfies Euler's equation "
+         "M = J w' + w x Jw for the rates it returns for every input (peeled program), and its thrust magnitude is the clamped norm of m(g e3 - a). "
+         "Orthonormality/alignment of the position-controller, SE_2(3) outer loop and flatness frames, rate consistency and f_ref = mr_ref_traj are "
+         "explored by the numeric search (regular and degenerate branches); 3 known findings in the flatness degenerate branches are recorded.",
+         "DESIGN.md §2 C14", TECH_T),
+ "C10": ("proof", "Lean 4 theorems over the regenerated instances of cyecca.util: LDL^T and UDU^T (n = 2, 3) reconstruct the symmetric input for "
+         "EVERY matrix with non-zero pivots, unit-triangular / diagonal shapes are structural; RK4 is exact for cubic-in-time derivatives, is the "
+         "degree-4 Taylor polynomial on linear/affine systems (order 4, consistency); sqrt_covariance_predict (n = 2) is lower triangular and "
+         "satisfies W'W^T + WW'^T = FP + PF^T + Q; sqrt_correct (n = m = 1, CasADi's symbolic QR inlined) gives Ss Ss^T = HPH^T + R, "
+         "K S = P H^T and W+W+^T = (I - KH)P. Larger sizes (n <= 7, m <= 3), P+ <= P and the h^5 local error: numeric search only (named in evidence).",
+         "DESIGN.md §2 C10", TECH_T),
 }
 checks = []
 for pid, (cat, text, ref, tech) in CLAIMED.items():
